@@ -129,6 +129,29 @@ LITERAL_FORMS = [
 ]
 
 
+# errors of every Python exception class that the runners map, placed inside every absorbing context
+# ("an error of a particular Python exception class inside a short-circuit operand")
+ERROR_EXPRS = [
+    ("ZeroDivisionError", "1 / {0} > 0", ["int"]), ("ValueError-overflow", "{0} + 9223372036854775807 > 0", ["int"]),
+    ("OverflowError", "int({0}) == 1", ["double"]), ("ValueError-range", "uint({0}) == 1u", ["int"]),
+    ("KeyError", "m[{0}] == 1", ["string"]), ("IndexError", "li[{0}] == 1", ["int"]), ("TypeError", "({0} < 'a')", ["int"]),
+    ("NameError", "nope == {0}", ["int"]), ("UnicodeDecodeError", "string({0}) == 'a'", ["bytes"]),
+    ("ValueError-parse", "int({0}) == 1", ["string"]), ("KeyError-select", "{{'a': {0}}}.b == 1", ["int"]),
+    ("macro-body", "[{0}].map(x, 1 / x)[0] == 1", ["int"]), ("duration-parse", "duration({0}) == duration('1s')", ["string"]),
+    ("timestamp-parse", "timestamp({0}) == timestamp('2009-02-13T23:31:30Z')", ["string"]), ("re2", "{0}.matches('(')", ["string"]),
+]
+ABSORBING_CTX = ["({e}) || true", "true || ({e})", "({e}) && false", "false && ({e})", "true ? 7 : (({e}) ? 1 : 2)", "false ? (({e}) ? 1 : 2) : 7",
+                 "[1, 2].exists(x, ({e}) || x == 2)", "[1, 2].all(x, ({e}) && x == 7)", "!(({e}) && false)", "({e}) || ({e}) || true",
+                 "(({e}) ? true : false) || true", "b1 || ({e})", "({e}) && b1"]
+
+
+def error_forms():
+    for name, tpl, args in ERROR_EXPRS:
+        e = tpl.format(*[LEAVES[a][0] for a in args])
+        for ctx in ABSORBING_CTX:
+            yield ("int" if ctx.startswith(("true ?", "false ?")) else "bool"), ctx.format(e=e), f"absorb[{name}]:{ctx}"
+
+
 def form_id(tpl, args):
     """semantic name of a form: template with argument types, e.g. `(double + double)`"""
     try:
@@ -156,6 +179,10 @@ def skeletons(depth, limit_per_form=None):
             seen.add(src)
             d1.setdefault(typ, []).append(src)
             yield typ, src, form_id(tpl, args)
+    for typ, src, fid in error_forms():
+        if src not in seen:
+            seen.add(src)
+            yield typ, src, fid
     if depth < 2:
         return
     # depth 2: one argument replaced by a depth-1 expression of the same type (first two per type, rotating)
